@@ -4,6 +4,8 @@ import Tbx.Proofs.FlowBuild
 import Tbx.Proofs.FlowDinicDfs
 import Tbx.Proofs.FlowDinicBfsSound
 import Tbx.Proofs.FlowDinicTotal
+import Tbx.Proofs.FlowDinicRerun
+import Tbx.Proofs.FlowEKRerun
 import Tbx.Proofs.FlowEKTotal
 import Tbx.Model.Flow
 import Tbx.Model.FlowDinic
@@ -302,6 +304,47 @@ theorem dinic_correct (es : List Edge) (s t : Nat) (hnn : ∀ e, e ∈ es → 0 
 
 example : ((Dinic.fromEdgeList d1Edges 0 4).bind (·.run 100)).isSome = true := by decide +kernel
 example : nNodes (d1Edges.map toE) + 2 < INV := by decide
+
+/-- **dinic_rerun_same_value** (clause "a reused / re-run solver", defect D24): `Dinic.run` is `runAgain` on a
+    fresh object, and after a completed run of the Dinic model any number `k` of further `run()` calls on the
+    same object - each modelled by `Dinic.runAgain`, which continues from the stored flow counter exactly as the
+    repaired Rust does - return (one BFS each, any fuel ≥ 1) and leave the reported value and the residual graph
+    unchanged.  With the pre-fix `let mut flow = 0` the second run reports 0; the `rerun` family replays that. -/
+theorem dinic_rerun_same_value (es : List Edge) (s t : Nat) (hnn : ∀ e, e ∈ es → 0 ≤ e.cap) (hst : s ≠ t)
+    (hN : nNodes (es.map toE) + 2 < INV) (d : Dinic) (hd : Dinic.fromEdgeList es s t = some d)
+    (fuel : Nat) (d' : Dinic) (h : d.run fuel = some d') (fuel' k : Nat) :
+    d.run fuel = d.runAgain fuel ∧
+    ∃ d'', Dinic.runAgainN (fuel' + 1) k d' = some d'' ∧ d''.maxFlow? = d'.maxFlow? ∧ d''.g = d'.g ∧
+      d''.maxFlow? = .ok d'.maxFlow := by
+  have h0 : d.maxFlow = 0 := by
+    unfold Dinic.fromEdgeList at hd
+    split at hd
+    · cases hd
+    · simp only [Option.some.injEq] at hd; subst hd; rfl
+  refine ⟨run_eq_runAgain d fuel h0, ?_⟩
+  obtain ⟨hs, ht, hq⟩ := run_quiet es s t hnn hst hN d hd fuel d' h
+  obtain ⟨d'', h2, m2, g2, q2⟩ := runAgainN_fixed (fun e => hst (Fin.mk.inj e)) hN fuel' k d' hq
+  refine ⟨d'', h2, ?_, g2, ?_⟩
+  · unfold Dinic.maxFlow?; rw [m2, q2.fin, hq.fin]
+  · unfold Dinic.maxFlow? maxFlowOut; rw [m2, q2.fin]; rfl
+
+example : (((Dinic.fromEdgeList d1Edges 0 4).bind (·.run 100)).bind (Dinic.runAgainN 1 3)).map (·.maxFlow)
+    = some 10 := by decide +kernel
+
+/-- **ek_ff_rerun_same_value**: the EdmondsKarp / FordFulkerson models continue from their stored flow counter,
+    so a re-run is `Solver.run` itself; after a completed run, `k` further runs of the same object return and
+    report the same value on an unchanged residual graph -/
+theorem ek_ff_rerun_same_value (es : List Edge) (s t : Nat) (hnn : ∀ e, e ∈ es → 0 ≤ e.cap) (hst : s ≠ t)
+    (hN : nNodes (es.map toE) ≤ INV) (pop : List Nat → Option (Nat × List Nat)) (hp : PopOK pop)
+    (hl : PopLen pop) (fuel : Nat) (sv' : Solver) (h : (Solver.fromEdgeList es s t).run pop fuel = some sv')
+    (fuel' k : Nat) :
+    ∃ sv'', Solver.runN pop (fuel' + 1) k sv' = some sv'' ∧ sv''.maxFlow? = sv'.maxFlow? ∧ sv''.g = sv'.g := by
+  obtain ⟨s2, h2, m2, g2, f2, f1⟩ := Flow.ek_ff_rerun es s t hnn hst hN pop hp hl fuel sv' h fuel' k
+  refine ⟨s2, h2, ?_, g2⟩
+  unfold Solver.maxFlow?; rw [m2, f2, f1]
+
+example : (((Solver.fromEdgeList d1Edges 0 4).runEK 100).bind (Solver.runN popBack 1 3)).map (·.maxFlow)
+    = some 10 := by decide +kernel
 
 /-- **solvers_agree on the models**: the three models return the same value whenever they return -/
 theorem models_agree (es : List Edge) (s t : Nat) (hnn : ∀ e, e ∈ es → 0 ≤ e.cap) (hst : s ≠ t)
